@@ -34,12 +34,20 @@ CORPORA = {
     "builder": dict(model="MC_Build", cfg="MC_Builder", quick=dict(MaxSeq=2), thorough=dict(MaxSeq=3), profiles=DEV_REL, place="end"),
     "hbuilder": dict(model="MC_Build", cfg="MC_HBuilder", quick=dict(MaxSeq=3), thorough=dict(MaxSeq=4), profiles=DEV_REL, place="end"),
     "str": dict(model="MC_Info", cfg="MC_Str", quick=dict(MaxStr=3), thorough=dict(MaxStr=4), profiles=DEV_REL, place="both"),
+    "typeids": dict(model="MC_TypeIds", quick={}, thorough={}, profiles=DEV_REL, place="end"),
     "load": dict(model="MC_Load", quick=dict(MaxT=72), thorough=dict(MaxT=160), profiles=DEV_REL, place="both"),
     "walk": dict(model="MC_Walk", quick=dict(MaxT=32), thorough=dict(MaxT=40), profiles=DEV_REL, place="both"),
 }
 
 # property -> list of corpus names; nontrivial rule used for evidence
 CHECKS = {
+    "C20": dict(corpora=["typeids", "fb"],
+                # native sweeps against the interval tables exported by MC_TypeIds: (which, table, quick stride, thorough stride)
+                sweeps=[("tag_type", "tag_type", 251, 1), ("mem_area_type", "mem_area_type", 251, 1), ("elf_type", "elf_type", 4099, 1)],
+                sweep_model="typeids",
+                rule="TLC-judged: every interval end point +-2 of the three classification tables and structured values, each with 3 partner "
+                     "values for the equality relations; all 256 framebuffer type bytes; native sweep of u32 values (stride 1 = all 2^32 in the "
+                     "thorough tier) against the interval tables exported from the specification"),
     "C15": dict(corpora=["dst", "hdst", "fields", "getters"],
                 rule="every built-in kind of both crates viewed at every declared size (variable-length kinds 0..base+3*elem+DstExtra, "
                      "header-tag kinds 0..40) and at its conformant size; non-trivial = casts that return a view"),
